@@ -259,6 +259,18 @@ def run_program(tier, idx, prog=None, plan=None, seed=None):
                         ignarg = ign[0] if (len(ign) == 1 and (idx // 12) % 2 == 0) else ((list(ign) if ci % 2 else ign) if ign else None)
                         d = D(keymap=sk.make_km(kmk, kmo), ignore=ignarg)(f)
                         ent['key'] = d.key(*a, **k)
+                        # C18: key() is the slot - make the call (when CPython accepts it) and look for the key among what it stored
+                        if rec['bind'] is not None and nm != 'no_cache':
+                            try:
+                                hash(ent['key'])
+                                before = set(d.__cache__()); d(*a, **k); added = set(d.__cache__()) - before
+                                tags['C18-slot'] += 1
+                                if added and ent['key'] not in added:
+                                    viol.append(dict(prop='C18', sig=dict(kind='key-not-the-slot', dec='%s.%s' % (mod, nm), bare_ignore=isinstance(ignarg, (str, int))),
+                                                     msg='%s.%s(%s%r, ignore=%r): key%r %r = %.100r but the call was stored under %.200r' % (
+                                                         mod, nm, kmk, kmo, ignarg, tuple(rec['args']), rec['kw'], ent['key'], sorted(added, key=repr)), item=dict(ci=ci)))
+                            except TypeError:
+                                pass
                     except Exception as e:
                         ent['exc'] = exc_name(e)
                     ent['line'] = dict(call, op='key', km=dict(typed=bool(kmo.get('typed')), flat=kmo.get('flat', True),
